@@ -351,15 +351,12 @@ theorem intBits_length {k : Nat} {v : Int} {b : Bits} (h : Spec.intBits k v = .o
 theorem alg_setSliceInt_unit (l : Bits) (a b c : Option Int) (v : Int)
     (hc : c = none ∨ c = some 1 ∨ c = some (-1)) :
     Alg.setSliceInt l a b c v =
-      match Py.getSlice l a b none with
+      match Spec.intBits (PyL.slicePositions a b (c.getD 1) l.length).length v with
       | .error e => .error e
-      | .ok s =>
-        match Spec.intBits s.length v with
-        | .error e => .error e
-        | .ok bits => PyL.setSlice l a b c bits := by
+      | .ok bits => PyL.setSlice l a b c bits := by
   unfold Alg.setSliceInt
   rw [if_neg (by rcases hc with h | h | h <;> simp [h])]
-  simp only [intValue_eq_intBits']
+  simp only [intValue_eq_intBits', slicePositions_length]
   rfl
 
 theorem spec_setSliceInt_unit (l : Bits) (a b c : Option Int) (v : Int)
